@@ -57,6 +57,8 @@ impl LeapSecondsFile {
         let mut me = Self::default();
 
         for line in contents.lines() {
+            // A blank line is ignored (as the header of the IERS file says), also when it holds only white space.
+            let line = line.trim();
             if let Some(first_char) = line.chars().next() {
                 if first_char == '#' {
                     continue;
